@@ -2339,7 +2339,16 @@ class Problem(object, metaclass=ProblemMetaclass):
                     else:
                         val = outputs[name]
 
-                    for abs_name in resolver.absnames(name):
+                    abs_names = resolver.absnames(name)
+                    if resolver.is_abs(abs_names[0], 'input'):
+                        # an auto_ivc output is recorded under the promoted name of the inputs it
+                        # feeds. The value belongs to that source (its units and its full shape),
+                        # not to the individual inputs (own units and src_indices).
+                        if all(set_later(abs_name) for abs_name in abs_names):
+                            continue
+                        abs_names = (resolver.source(abs_names[0]),)
+
+                    for abs_name in abs_names:
                         if set_later(abs_name):
                             continue
 
